@@ -17,7 +17,7 @@ from typing import Any, Iterator
 
 KEYWORDS = {"coro", "def", "for_actor", "for_object", "for_performer", "alias", "for", "previous", "Position"}
 
-PLAIN_OPS = ["Null", "Return", "End", "Hold", "Destroy", "JumpCommon", "lives", "object", "performer",
+PLAIN_OPS = ["Null", "Return", "End", "Hold", "Destroy", "JumpCommon", "CallCommon", "lives", "object", "performer",
              "Switch", "SwitchScenario", "message_SwitchTalk", "CaseText", "DefaultText", "message_Talk",
              "back_SetGround", "se_Play", "WaitExecuteLives", "camera_SetMyself", "flag_Set", "x", "_y9", "OP2",
              "aliasx", "defx", "Position_", "ProcessSpecial", "main_EnterAdventure"]
@@ -34,6 +34,14 @@ KINDS = ["GENERIC", "ACTOR", "OBJECT", "PERFORMER", "COROUTINE"]
 
 
 def jump_table() -> dict[str, int]:
+    """which op carries a jump target at which parameter index: the PINNED specification table (lean/ESV/Beh/Spec.lean via
+    harness/spec_tables.py), never the table of the /repo under test — the oracle must not follow an edited table; that
+    /repo's table equals the pinned one is the Lean tie ESV.TableTie"""
+    from harness import spec_tables
+    return dict(spec_tables.OPS_WITH_JUMP)
+
+
+def repo_jump_table() -> dict[str, int]:
     from explorerscript.ssb_converting.ssb_special_ops import OPS_WITH_JUMP_TO_MEM_OFFSET
     return dict(OPS_WITH_JUMP_TO_MEM_OFFSET)
 
@@ -151,6 +159,10 @@ def gen_set(r: random.Random, stats: dict | None = None) -> dict:
             else:
                 name = r.choice(PLAIN_OPS)
                 params = [gen_param(r) for _ in range(r.choice([0, 0, 1, 1, 2, 3, 4]))]
+                if name in ("JumpCommon", "CallCommon") and r.random() < 0.7:
+                    # a coroutine id: an integer that is / is not the offset of an op of the set (it is no jump target)
+                    allo = [o for x in layout for o in x]
+                    params = [r.choice(allo) if allo and r.random() < 0.5 else r.choice([0, 1, 7, 33, 400, 70001])]
             rops.append({"off": off, "name": name, "params": params})
         ops.append(rops)
     if stats is not None:
